@@ -10,7 +10,7 @@ From Coq Require Import NArith List Bool Arith Permutation.
 From DBG Require Import Proofs.AbstractWalk.
 From DBG Require Import Spec.Dna Spec.GraphIndex Spec.Unitig Spec.CompressSpec Packed.ExtsModel Algo.Compress
   Check.GraphCheck Check.CompressHyp Proofs.CompressBasics Proofs.CompressRefine Proofs.CompressWalk Proofs.CompressProofs
-  Proofs.CompressHypProofs Proofs.GraphCheckProofs.
+  Proofs.CompressHypProofs Proofs.GraphCheckProofs Proofs.DeriveExts Proofs.CompressEntry.
 Import ListNotations.
 Local Open Scope nat_scope.
 
@@ -56,11 +56,38 @@ Theorem C01_node_facts : forall D reduce join K stranded, 1 <= K -> forall T : t
 Proof. exact node_facts. Qed.
 Print Assumptions C01_node_facts.
 
+(* the node's extension byte is made of the extensions of its two end k-mers, read in the node's frame
+   (complemented exactly when the end k-mer was traversed flipped) *)
+Theorem C01_terminal_exts : forall D reduce join K stranded, 1 <= K -> forall T : table D,
+  tbl_ok D K stranded T -> exts_sym D stranded T ->
+  exists nodes, compress_kmers D reduce join stranded T = Some nodes /\ terminal_ok D K stranded T nodes.
+Proof. exact compress_terminal. Qed.
+Print Assumptions C01_terminal_exts.
+
+(* (f) the entry point without extensions (compress_kmers_no_exts, repaired code: F8): the table it builds -
+   extensions derived from set membership by [derive_exts] - meets both hypotheses for every set of distinct
+   well-formed (canonical when unstranded) k-mers, so all of the above applies to it. *)
+Theorem C01_derive_exts_sym : forall D K stranded, 1 <= K -> forall kds : list (dna * D),
+  NoDup (map fst kds) ->
+  (forall k, In k (map fst kds) -> length k = K /\ wf_dna k /\ (stranded = false -> canon k = k)) ->
+  tbl_ok D K stranded (derived_table D stranded kds) /\ exts_sym D stranded (derived_table D stranded kds).
+Proof. exact derived_ok. Qed.
+Print Assumptions C01_derive_exts_sym.
+
+Corollary C01_no_exts_entry_point : forall D reduce join K stranded, 1 <= K -> forall kds : list (dna * D),
+  NoDup (map fst kds) ->
+  (forall k, In k (map fst kds) -> length k = K /\ wf_dna k /\ (stranded = false -> canon k = k)) ->
+  let T := derived_table D stranded kds in
+  exists nodes, compress_kmers D reduce join stranded T = Some nodes /\
+    partition_ok D K stranded T nodes /\ steps_ok D K stranded T nodes /\ payload_ok D K stranded reduce T nodes.
+Proof. exact no_exts_c01. Qed.
+Print Assumptions C01_no_exts_entry_point.
+
 (* the hypotheses are decidable; the boolean forms are evaluated on every generated table by the run *)
 Theorem C01_hypotheses_decidable : forall D K stranded (T : table D),
   (tbl_okb D K stranded T = true -> tbl_ok D K stranded T) /\
   (exts_symb D stranded T = true -> exts_sym D stranded T).
-Proof. intros. split; [apply tbl_okb_sound | apply exts_symb_sound]. Qed.
+Proof. exact hyp_decidable. Qed.
 Print Assumptions C01_hypotheses_decidable.
 
 (* (g) The boolean checker run by the correspondence driver on the IMPLEMENTATION's nodes is sound: acceptance
